@@ -1,5 +1,5 @@
 (* C12 - strict mode fails fast, lenient mode skips exactly the failing packets.  Statements only (WorldProofs.v). *)
-From RU Require Import Base Types Defs BitReader World WorldProofs Layout LayoutProofs.
+From RU Require Import Base Types Defs BitReader World WorldProofs Layout LayoutProofs Run FrameProofs C12Bytes.
 
 (* strict: the result is the fold over the prefix before the first failing packet, and the error is that packet's *)
 Theorem C12_strict_stops_at_first_failure : forall St ps w w1 e,
@@ -41,3 +41,13 @@ Print Assumptions C12_no_failure_modes_agree.
 Theorem C12_step_is_table_driven : forall St w c pl, step_class St w c pl = step_layout St w c pl.
 Proof. exact step_class_is_layout. Qed.
 Print Assumptions C12_step_is_table_driven.
+
+(* from the BYTES of the stream: the lenient run of the byte stream of well-formed packets reports no error and equals the STRICT run of the byte
+   stream of the survivors (the packets that do not fail), framed again - for failures that leave no trace (C12_atomic_failures) *)
+Theorem C12_lenient_bytes_is_strict_on_survivor_bytes : forall St ps,
+  Forall wf_packet ps ->
+  (forall w0 p w1 e, In p ps -> step St w0 p = (w1, Some e) -> w1 = w0) ->
+  Run.run_strict St (enc_all (survivors St empty_world ps)) = (fst (Run.run_lenient St (enc_all ps)), None) /\
+  snd (Run.run_lenient St (enc_all ps)) = None.
+Proof. exact lenient_bytes_is_strict_on_survivor_bytes. Qed.
+Print Assumptions C12_lenient_bytes_is_strict_on_survivor_bytes.
